@@ -83,6 +83,7 @@ var queries = map[string]string{
 	"frag":      `{o{...F} i{...F}} fragment F on I {x ... on J {y}}`,
 	"invalid":   `{nope}`,
 	"static":    `{f(x: 3, y: A) k: f(in: {a: 1, b: [2]}) l{f(x: 5)}}`,
+	"dynamic":   `query($v: Boolean!) {a @skip(if: $v) o{x y @include(if: $v) o{x}} i{x ... on O @skip(if: $v) {y} ... on P {z}} ...Q @include(if: $v)} fragment Q on Query {b li{x}}`,
 }
 
 const (
@@ -123,6 +124,8 @@ func scenarios(thorough bool) []scenario {
 		{name: "normalising cache, literal-only difference", threads: [][]op{{{opCacheExecN, "enum-in", 0}}, {{opCacheExecN, "enum-in", 0}}}, maxEnt: 2},
 		{name: "shared plan, literal arguments, resolvers that scribble on their arguments", threads: [][]op{{{opPlanExec, "static", 0}}, {{opPlanExec, "static", 1}}}, planQ: "static"},
 		{name: "shared cache, literal arguments, resolvers that scribble on their arguments", threads: [][]op{{{opCacheExec, "static", 0}}, {{opCacheExec, "static", 1}, {opCacheExec, "static", 0}}}, maxEnt: 2},
+		{name: "shared plan with variable-driven directives, different variables", threads: [][]op{{{opPlanExec, "dynamic", 0}}, {{opPlanExec, "dynamic", 1}}}, planQ: "dynamic"},
+		{name: "shared cache, variable-driven directives", threads: [][]op{{{opCacheExec, "dynamic", 1}}, {{opCacheExec, "dynamic", 0}, {opCacheExecN, "dynamic", 1}}}, maxEnt: 2},
 		{name: "validation and execution on a cold schema", threads: [][]op{{{opValidate, "frag", 0}}, {{opDo, "abstract", 1}}}},
 		{name: "introspection next to execution on a cold schema", threads: [][]op{{{opDo, "introspec", 0}}, {{opDo, "nested", 1}}}},
 		{name: "invalid request next to a valid one", threads: [][]op{{{opDo, "invalid", 0}}, {{opDo, "enum-out", 0}}}},
@@ -175,6 +178,10 @@ func perform(sh *shared, o op) (out string) {
 		}
 	}()
 	ctx := context.WithValue(context.Background(), variantKey{}, o.variant)
+	var vars map[string]interface{}
+	if strings.Contains(queries[o.q], "$v") {
+		vars = map[string]interface{}{"v": o.variant%2 == 1}
+	}
 	js := func(r *graphql.Result) string {
 		b, err := json.Marshal(r)
 		if err != nil {
@@ -184,9 +191,9 @@ func perform(sh *shared, o op) (out string) {
 	}
 	switch o.kind {
 	case opDo:
-		return js(graphql.Do(graphql.Params{Schema: sh.b.Schema, RequestString: queries[o.q], Context: ctx}))
+		return js(graphql.Do(graphql.Params{Schema: sh.b.Schema, RequestString: queries[o.q], Context: ctx, VariableValues: vars}))
 	case opPlanExec:
-		return js(graphql.ExecutePlan(sh.plan, graphql.ExecuteParams{Schema: sh.b.Schema, Context: ctx}))
+		return js(graphql.ExecutePlan(sh.plan, graphql.ExecuteParams{Schema: sh.b.Schema, Context: ctx, Args: vars}))
 	case opCacheExec, opCacheExecN:
 		c := sh.cache
 		if o.kind == opCacheExecN {
@@ -196,7 +203,17 @@ func perform(sh *shared, o op) (out string) {
 		if len(pr.Errors) > 0 {
 			return js(&graphql.Result{Errors: pr.Errors})
 		}
-		return js(graphql.ExecutePlan(pr.Plan, graphql.ExecuteParams{Schema: sh.b.Schema, Context: ctx, Args: pr.SynthArgs}))
+		args := pr.SynthArgs
+		if vars != nil {
+			args = map[string]interface{}{}
+			for k, v := range pr.SynthArgs {
+				args[k] = v
+			}
+			for k, v := range vars {
+				args[k] = v
+			}
+		}
+		return js(graphql.ExecutePlan(pr.Plan, graphql.ExecuteParams{Schema: sh.b.Schema, Context: ctx, Args: args}))
 	case opValidate:
 		doc, perr := parser.Parse(parser.ParseParams{Source: source.NewSource(&source.Source{Body: []byte(queries[o.q])})})
 		if perr != nil {
